@@ -302,6 +302,7 @@ func genC09(tier string, r *rng) {
 		emitUp("-", buildReq(m, "/", "HTTP/1.1", base, "\r\n"))
 	}
 	for _, v := range []string{"HTTP/1.1", "HTTP/1.0", "HTTP/1.2", "HTTP/1.10", "HTTP/2.0", "HTTP/2.1", "HTTP/0.9", "HTTP/1.;", "HTTP/1.:", "HTTP/01.01",
+		"HTTP/+1.1", "HTTP/1.+1", "HTTP/+1.+1", "HTTP/-1.1", "HTTP/1.-1", "HTTP/+2.0", "HTTP/1_0.1", "HTTP/0x1.1",
 		"HTTP/1.01", "HTTP/18446744073709551617.1", "HTTP/1.18446744073709551617", "HTTP/1", "HTTP/1.", "HTTP/.1", "HTTP/1.1 ", "HTTP/1.1 x", "http/1.1", "HTTP/1,1", "HTTX/1.1", "HTTP/1.1.1", "", "HTTP/1.x", "HTTP/:.1"} {
 		emitUp("-", buildReq("GET", "/", v, base, "\r\n"))
 	}
@@ -311,8 +312,10 @@ func genC09(tier string, r *rng) {
 	// each required header: absent / case-varied value / padded / wrong / duplicated good-bad, bad-good
 	variants := map[string][]string{
 		"Host":                  {" example.com", "", " ", "\texample.com\t"},
-		"Upgrade":               {" websocket", " WebSocket", "websocket", "\t websocket \t", " websocket2", " h2c, websocket", "", " web socket"},
-		"Connection":            {" Upgrade", " upgrade", " keep-alive, Upgrade", " Upgrade, keep-alive", " keep-alive,upgrade,x", " keep-alive", " notupgrade", " upgradex, keep-alive", "", " \"upgrade\"", " keep-alive Upgrade", " Upgrade;q=1"},
+		"Upgrade":               {" websocket", " WebSocket", "websocket", "\t websocket \t", " websocket2", " h2c, websocket", "", " web socket", " websocke2, websocket", " WebSocket, xebsocket", " xebsocket"},
+		"Connection":            {" Upgrade", " upgrade", " keep-alive, Upgrade", " Upgrade, keep-alive", " keep-alive,upgrade,x", " keep-alive", " notupgrade", " upgradex, keep-alive", "", " \"upgrade\"", " keep-alive Upgrade", " Upgrade;q=1",
+			// other elements of the token's own length, before and after it
+			" Trailer, Upgrade", " Upgrade, Trailer", " X-Trace, upgrade, Trailer", " Trailer", " upgradE,Upgrade", " Trailer, X-Trace"},
 		"Sec-WebSocket-Version": {" 13", "13", " 12", " 14", " 013", " 13 ", "", " 13, 12", " x"},
 		"Sec-WebSocket-Key":     {" dGhlIHNhbXBsZSBub25jZQ==", " dGhlIHNhbXBsZSBub25jZQ=", " dGhlIHNhbXBsZSBub25jZQ===", "", " !!!!!!!!!!!!!!!!!!!!!!!!", " dGhlIHNhbXBsZSBub25jZQ==dGhlIHNhbXBsZSBub25jZQ==", "\tAAAAAAAAAAAAAAAAAAAAAA==  ",
 			" AAAAAAAAAAAAAAAAAAAAAAAA", " dGhlIHNhbXBsZSBub25jZQE=", " AAAA====AAAAAAAAAAAAAAAA"},
